@@ -36,7 +36,9 @@ def gen_scan(r):
 
 DERIVED = [['sum', None, 0], ['sum', None, 1], ['sum', ['mul', enc(2)], 1], ['mean', None, 0], ['min', None, 0],
            ['min', None, 1], ['max', ['neg'], 1], ['max', None, 0], ['to_list'], ['count', 0], ['count', 1],
-           ['variance', None, 0], ['variance', None, 1]]
+           ['variance', None, 0], ['variance', None, 1],
+           # seeds that are tuples holding a mutable member (rxsci's own batch: ([], False))
+           ['batch', 2], ['batch', 3], ['batch', 1], ['duc', None], ['duc', ['floordiv', 2]]]
 
 
 def generate(rng, tier):
@@ -84,6 +86,13 @@ def fold_spec(node, xs):
         return ([[] if node[1] else [i + 1] for i in range(len(xs))], [len(xs)] if node[1] else [])
     if k == 'to_list':
         return ([[] for _ in xs], [list(xs)])
+    if k == 'batch':
+        b = node[1]
+        return ([[xs[i + 1 - b:i + 1]] if (i + 1) % b == 0 else [] for i in range(len(xs))],
+                [xs[len(xs) - len(xs) % b:]] if len(xs) % b else [])
+    if k == 'duc':
+        f = py_fn(node[1]) if node[1] else (lambda x: x)
+        return ([[x] if i == 0 or f(x) != f(xs[i - 1]) else [] for i, x in enumerate(xs)], [])
     km = py_fn(node[1]) if len(node) > 1 and node[1] else (lambda x: x)
     ys = [km(x) for x in xs]
     red = bool(node[2])
